@@ -78,7 +78,8 @@ var sigRules = []sigRule{
 	// F19 rlwe.Decryptor
 	rule(`rlwe\.Decryptor\.Decrypt/ct/result:value:out-history:larger-level`, `rlwe.Decryptor.Decrypt/ct/larger-level-plaintext-Value-not-resized`),
 	// F20 rgsw.ExternalProduct
-	rule(`rgsw\.Evaluator\.ExternalProduct/ct-rgsw/result:value:out-history:dirty-words`, `rgsw.Evaluator.ExternalProduct/ct-rgsw/distinct-output-read-before-written`),
+	// (two or more special primes only; with one special prime both symptoms keep their generic signature)
+	rule(`rgsw\.Evaluator\.ExternalProduct/ct-rgsw/2P/result:value:(?:out-history:dirty-words|alias:out==op0)`, `rgsw.Evaluator.ExternalProduct/ct-rgsw/distinct-output-read-before-written`),
 	// F21 lintrans
 	rule(`lintrans\.Evaluator\.(?:EvaluateMany|EvaluateSequential|MultiplyByDiagMatrix)/ct/result:value:out-history:larger-degree`, `lintrans.Evaluator.MultiplyByDiagMatrix/ct/larger-degree-output-keeps-old-component`),
 	rule(`lintrans\.Evaluator\.MultiplyByDiagMatrixBSGS/ct/result:value:out-history:larger-degree`, `lintrans.Evaluator.MultiplyByDiagMatrixBSGS/ct/larger-degree-output-keeps-old-component`),
